@@ -82,9 +82,35 @@ def _cleanup():
 atexit.register(_cleanup)
 
 
-def _file(fmt, nf, na, cell, seed, idx=0):
+def _shuffle_lammpstrj_rows(fn, seed):
+    """rewrite a LAMMPS dump with the atom records of every frame in random order (what LAMMPS itself writes unless
+    `dump_modify sort id` is given); every record carries its atom id, so the content is the same"""
+    rng = np.random.Generator(np.random.PCG64(seed + 4242))
+    out, block = [], None
+
+    def flush():
+        nonlocal block
+        if block is not None:
+            out.extend(block[i] for i in rng.permutation(len(block)))
+        block = None
+    for line in open(fn).read().splitlines():
+        if line.startswith("ITEM:"):
+            flush()
+            out.append(line)
+            if line.startswith("ITEM: ATOMS"):
+                block = []
+        elif block is not None:
+            if line.strip():
+                block.append(line)
+        else:
+            out.append(line)
+    flush()
+    open(fn, "w").write("\n".join(out) + "\n")
+
+
+def _file(fmt, nf, na, cell, seed, idx=0, rows=None):
     """saved test file + its full load, cached per process"""
-    key = (fmt, nf, na, cell, seed, idx)
+    key = (fmt, nf, na, cell, seed, idx, rows)
     if key in _CACHE:
         return _CACHE[key][1:]
     if len(_CACHE) >= 12:
@@ -99,7 +125,12 @@ def _file(fmt, nf, na, cell, seed, idx=0):
     with warnings.catch_warnings():
         warnings.simplefilter("ignore")
         tr.save(fn)
+    if rows == "shuffled":
+        sorted_full = files.load(fn, fmt, tr.topology)
+        _shuffle_lammpstrj_rows(fn, seed + idx)
     full = files.load(fn, fmt, tr.topology)
+    if rows == "shuffled":
+        full._row_order_diff = files.traj_diff(full, sorted_full)
     _CACHE[key] = (d, fn, tr, full)
     return fn, tr, full
 
@@ -125,6 +156,8 @@ def strategy(draw, tier="quick"):
     cell = _cellkind(fmt, draw(st.sampled_from([None, "ortho", "tric", "vary"])))
     op = draw(st.sampled_from(["stride", "stride", "frame", "iterload", "iterload", "iterload", "list"]))
     case = {"fmt": fmt, "nf": nf, "na": na, "cell": cell, "seed": draw(st.integers(0, 3)), "op": op}
+    if fmt == "lammpstrj" and na >= 2 and draw(st.booleans()):
+        case["rows"] = "shuffled"       # a dump as LAMMPS writes it without `dump_modify sort id`
     if draw(st.booleans()):
         if na >= 7 and draw(st.integers(0, 2)) == 0:
             # almost-regular subsets: an arithmetic progression with one interior element moved by one - the shapes a
@@ -194,7 +227,11 @@ def _run_case(case):
     import mdtraj as md
     viol, labels = [], ["fmt:" + case["fmt"], "op:" + case["op"]] + list(case.get("excluded", []))
     fmt, nf, na = case["fmt"], case["nf"], case["na"]
-    fn, tr, full = _file(fmt, nf, na, case["cell"], case["seed"])
+    fn, tr, full = _file(fmt, nf, na, case["cell"], case["seed"], rows=case.get("rows"))
+    if case.get("rows"):
+        labels.append("rows:" + case["rows"])
+        if getattr(full, "_row_order_diff", None):
+            viol.append(("%s/row-order-changes-full-load" % fmt, "the same dump with its atom records in another order loads differently: %s" % full._row_order_diff))
     kw = {"top": tr.topology} if files.needs_top(fmt) else {}
     atoms = case.get("atoms")
     akw = {} if atoms is None else {"atom_indices": np.array(atoms)}
@@ -229,7 +266,7 @@ def _run_case(case):
                 k = case["k"]
                 fns, fulls, fulls_all = [], [], []
                 for j in range(k):
-                    f_j, _t, full_j = _file(fmt, nf, na, case["cell"], case["seed"], idx=j)
+                    f_j, _t, full_j = _file(fmt, nf, na, case["cell"], case["seed"], idx=j, rows=case.get("rows"))
                     fns.append(f_j)
                     fulls.append(full_j[::stride])
                     fulls_all.append(full_j)
